@@ -699,6 +699,23 @@ def stream_cap(ctx):
         ce = unit(rng) if rng.random() < 0.8 else gen_centre(rng)
         cm = rng.choice([0.5, 1.0, 1.5, 1e-4, 1.9]) * rng.choice([1.0, -1.0])
         cases.append({'stream': 'cap', 'cap': ce + [cm], 'pts': [ce, [-a for a in ce]], 'kinds': ['centre', 'antipode']})
+    # points EXACTLY on the boundary circle of a cap with cm >= 0 are inside (1 - x.p <= cm): the configurations in which the
+    # arithmetic is exact - axis-aligned centres, cm = 0 (the centre itself), cm = 1 (the great circle: the other axis points),
+    # cm = 2 (the antipode)
+    for ax in range(3):
+        for sg in (1.0, -1.0):
+            ce = [0.0, 0.0, 0.0]
+            ce[ax] = sg
+            others = []
+            for bx in range(3):
+                if bx != ax:
+                    for s2 in (1.0, -1.0):
+                        q = [0.0, 0.0, 0.0]
+                        q[bx] = s2
+                        others.append(q)
+            cases.append({'stream': 'cap', 'cap': ce + [0.0], 'pts': [list(ce)], 'kinds': ['centre'], 'exact': True})
+            cases.append({'stream': 'cap', 'cap': ce + [1.0], 'pts': others, 'kinds': ['boundary'] * 4, 'exact': True})
+            cases.append({'stream': 'cap', 'cap': ce + [2.0], 'pts': [[-v for v in ce]], 'kinds': ['antipode'], 'exact': True})
     model = core.driver_parallel([{'p': 'C12', 'op': 'capdist', 'cap': capJ(c['cap']), 'pts': [ptJ(p) for p in c['pts']]} for c in cases])
     for c, m in zip(cases, model):
         check_cap(ctx, c, m)
@@ -743,6 +760,14 @@ def check_cap(ctx, c, m=None):
             ctx.violate('cap:distance-nan', 'cap_distance is NaN for the %s point %r of cap %r (radius - separation = %r)' % (kinds[i], p, cap, wantd), one)
         if not math.isnan(dist[i]) and abs(dist[i] - wantd) > 1e-9 * max(1, abs(wantd)) + 3e-6:
             ctx.violate('cap:distance-value', 'cap_distance = %r, radius - separation = %r' % (dist[i], wantd), one)
+        if c.get('exact'):
+            ctx.count('cap:point:exact-boundary')
+            if inn[i] != m['in'][i]:
+                ctx.disagree('cap/in', one, inn[i], m['in'][i])
+            if not inn[i]:
+                ctx.violate('cap:boundary-point-outside', 'is_in_cap gives False for %r, which lies exactly on the boundary of the cap %r '
+                            '(1 - x.p = cm; the cap is closed)' % (p, cap), one)
+            continue
         if abs(mg) < MARGIN:
             ctx.count('cap:point:boundary-undecided')
             continue
